@@ -28,10 +28,16 @@ for f in sorted(os.listdir(os.path.join(V, "rules"))):
             mod.run(prog, chk)
         except Exception as e:
             print("!!", prop, e, file=sys.stderr)
+    per_rule = {}
     for o in chk.obligations:
         fn = o.get("function")
-        if fn and not GENERIC.match(o["rule"]):
-            specific.setdefault(fn, set()).add(o["rule"])
+        if fn:
+            per_rule.setdefault(o["rule"], set()).add(fn)
+    for rule, fns in per_rule.items():
+        if GENERIC.match(rule) or len(fns) > 25:      # a rule that names more than 25 functions is a whole-library rule
+            continue
+        for fn in fns:
+            specific.setdefault(fn, set()).add(rule)
 rows = []
 for fn in prog.all_functions():
     n = sum(len(b["elems"]) for b in fn.blocks.values())
